@@ -1,7 +1,16 @@
 #!/bin/bash
-# seeded_run.sh <seeded-dir> <PROP> [tier]  : apply the seeded change to /repo, run the check, undo.
-d=$1; prop=$2; tier=${3:-quick}
-cd /repo && git apply "$(readlink -f /verif/$d)/patch.diff" || { echo "patch does not apply"; exit 2; }
-cd /verif && ./check $prop $tier > /verif/build/dev/seeded.out 2>&1; rc=$?
-git -C /repo checkout -- .
-echo "rc=$rc"; grep -A1 "^VIOLATION" /verif/build/dev/seeded.out | grep "class=" | cut -c1-220 | sort | uniq -c | sort -rn | head -8; tail -1 /verif/build/dev/seeded.out | cut -c1-200
+# seeded_run.sh <seeded-dir> <PROP> [tier] : run a check against a seeded change.
+# The change is applied in a scratch worktree of /repo's HEAD (removed afterwards) and the
+# driver is pointed at it with VERIF_REPO, so /repo, /verif/evidence and /verif/replays are
+# not touched. (Equivalent to: git -C /repo apply patch.diff; ./check PROP; git -C /repo checkout -- .)
+d=$(readlink -f "/verif/$1" 2>/dev/null || readlink -f "$1"); prop=$2; tier=${3:-quick}
+wt=/tmp/sw-$(basename "$d")
+git -C /repo worktree remove --force "$wt" >/dev/null 2>&1
+git -C /repo worktree add -q --detach "$wt" HEAD || exit 2
+git -C "$wt" apply "$d/patch.diff" || { echo "patch does not apply"; git -C /repo worktree remove --force "$wt"; exit 2; }
+mkdir -p /verif/build/dev
+out=/verif/build/dev/seeded-$(basename "$d")-$prop.out
+cd /verif && VERIF_REPO=$wt ./check $prop $tier > "$out" 2>&1; rc=$?
+git -C /repo worktree remove --force "$wt"
+rm -rf "/verif/build/alt/$(printf %s "$wt" | tr -c "a-zA-Z0-9_-" "_" | head -c 60)"
+echo "rc=$rc"; grep -A1 "^VIOLATION" "$out" | grep "class=" | cut -c1-240 | sort | uniq -c | sort -rn | head -8; tail -1 "$out" | cut -c1-200
